@@ -142,6 +142,39 @@ pub struct Knobs {
     pub client_timeout_ms: u64,
     pub catchup_threshold: u64,
     pub election_retry_timeout_ms: u64,
+    /// watch.event_queue_size (broadcast channel between apply and the dispatcher)
+    #[serde(default = "d_watch_queue")]
+    pub watch_queue: usize,
+    /// watch.watcher_buffer_size (per-watcher channel)
+    #[serde(default = "d_watch_buf")]
+    pub watch_buf: usize,
+    /// watch.heartbeat_interval_ms (Progress events; 0 = off)
+    #[serde(default = "d_watch_hb")]
+    pub watch_heartbeat_ms: u64,
+}
+fn d_watch_hb() -> u64 {
+    30_000
+}
+fn d_watch_queue() -> usize {
+    10240
+}
+fn d_watch_buf() -> usize {
+    256
+}
+
+/// One watcher task (C24).
+#[derive(Serialize, Deserialize, Clone, Debug, PartialEq)]
+pub struct WatchPlan {
+    pub start_ms: u64,
+    /// 0 = current leader, otherwise node id = (node-1) % n + 1
+    pub node: u32,
+    pub key: u8,
+    pub prefix: bool,
+    pub prev_kv: bool,
+    /// pause between two receives (slow consumer)
+    pub recv_delay_ms: u64,
+    /// drop the handle after this many ms (0 = keep until the end)
+    pub drop_after_ms: u64,
 }
 
 #[derive(Serialize, Deserialize, Clone, Debug, PartialEq)]
@@ -158,6 +191,8 @@ pub struct Plan {
     pub keys: u8,
     /// enabling conditions of open known findings that this plan does not generate
     pub masked: Vec<String>,
+    #[serde(default)]
+    pub watchers: Vec<WatchPlan>,
 }
 
 fn gen_knobs(r: &mut Rng, scenario: &str) -> Knobs {
@@ -200,6 +235,9 @@ fn gen_knobs(r: &mut Rng, scenario: &str) -> Knobs {
         client_timeout_ms: *r.pick(&[300u64, 800, 2000]),
         catchup_threshold: *r.pick(&[1u64, 1, 5]),
         election_retry_timeout_ms,
+        watch_queue: 10240,
+        watch_buf: 256,
+        watch_heartbeat_ms: 30_000,
     };
     match scenario {
         "snapshot" => {
@@ -220,6 +258,15 @@ fn gen_knobs(r: &mut Rng, scenario: &str) -> Knobs {
         }
         "deadline" => {
             k.general_timeout_ms = *r.pick(&[50u64, 100, 200]);
+        }
+        "watch" => {
+            // small queues so that both overflow kinds (broadcast lag, watcher buffer) occur; large apply batches
+            k.watch_queue = *r.pick(&[2usize, 8, 64, 10240]);
+            k.watch_buf = *r.pick(&[2usize, 8, 256]);
+            k.watch_heartbeat_ms = *r.pick(&[0u64, 200, 1000]);
+            k.max_batch = *r.pick(&[16usize, 100, 100]);
+            k.snap_threshold = 1_000_000;
+            k.max_pending_writes = 10_000;
         }
         "reelect" => {
             // the repair of the deposed leader's log should fit into one request
@@ -257,6 +304,13 @@ fn gen_clients(r: &mut Rng, n_clients: u32, n_nodes: u32, horizon: u64, keys: u8
                     70..=91 => OpKind::ReadLease,
                     92..=95 => OpKind::ReadDefault,
                     _ => OpKind::ReadEventual,
+                },
+                "watch" => match roll {
+                    0..=54 => OpKind::Put,
+                    55..=69 => OpKind::Delete,
+                    70..=89 => OpKind::Cas(r.below(3) as u8),
+                    90..=94 => OpKind::PutTtl,
+                    _ => OpKind::ReadLin,
                 },
                 "staletail" | "reelect" => match roll {
                     0..=74 => OpKind::Put,
@@ -372,6 +426,14 @@ fn gen_faults(r: &mut Rng, scenario: &str, horizon: u64, n_voters: u32, masked: 
                 87..=92 => Fault::SlowLink { at, dur: r.range(200, 3000), src: sel_any(r), dst: sel_any(r), extra_ms: r.range(20, 800) },
                 _ => Fault::BreakStreams { at, a: NodeSel::Leader, b: sel_follower(r) },
             },
+            "watch" => match roll {
+                // stalls make the state machine worker apply large batches at once (burst of watch events)
+                0..=39 => Fault::ApplyStall { at, node: sel_any(r), dur: r.range(100, 2000) },
+                40..=54 => Fault::Partition { at, dur: r.range(200, 3000), side: vec![sel_any(r)] },
+                55..=69 => Fault::Crash { at, node: sel_any(r), power_loss: false, down_ms: r.range(100, 2000) },
+                70..=84 => Fault::SlowLink { at, dur: r.range(200, 3000), src: NodeSel::Leader, dst: sel_follower(r), extra_ms: r.range(50, 600) },
+                _ => Fault::DiskStall { at, node: sel_any(r), dur: r.range(50, 1000) },
+            },
             "routing" => match roll {
                 // a leader cut off from the majority keeps believing it leads until its lease / verification fails
                 0..=39 => Fault::Partition { at, dur: r.range(500, 5000), side: vec![NodeSel::Leader] },
@@ -416,7 +478,7 @@ fn gen_faults(r: &mut Rng, scenario: &str, horizon: u64, n_voters: u32, masked: 
 }
 
 pub const SCENARIOS: &[&str] =
-    &["reelect", "staletail", "general", "calm", "election", "lease", "durability", "lag", "snapshot", "deadline", "membership", "routing"];
+    &["watch", "reelect", "staletail", "general", "calm", "election", "lease", "durability", "lag", "snapshot", "deadline", "membership", "routing"];
 
 pub fn gen_plan(seed: u64, scenario: &str, masked: &[String]) -> Plan {
     let mut r = Rng::new(seed ^ 0xC1u64.rotate_left(40));
@@ -507,6 +569,23 @@ pub fn gen_plan(seed: u64, scenario: &str, masked: &[String]) -> Plan {
     } else {
         clients
     };
+    let watchers = if scenario == "watch" || (scenario == "general" && r.chance(1, 4)) {
+        let mut wr = r.fork(4);
+        let n = wr.range(1, 5);
+        (0..n)
+            .map(|_| WatchPlan {
+                start_ms: wr.range(200, horizon / 2),
+                node: if wr.chance(1, 2) { 0 } else { 1 + wr.below(n_voters as u64) as u32 },
+                key: wr.below(keys as u64) as u8,
+                prefix: wr.chance(1, 3),
+                prev_kv: wr.chance(1, 3),
+                recv_delay_ms: *wr.pick(&[0u64, 0, 5, 50, 400]),
+                drop_after_ms: if wr.chance(1, 5) { wr.range(200, 5000) } else { 0 },
+            })
+            .collect()
+    } else {
+        Vec::new()
+    };
     let quiet_ms = (10 * knobs.election_max).max(3 * knobs.general_timeout_ms).clamp(8_000, 60_000);
     Plan {
         seed,
@@ -520,5 +599,6 @@ pub fn gen_plan(seed: u64, scenario: &str, masked: &[String]) -> Plan {
         clients,
         keys,
         masked: masked.to_vec(),
+        watchers,
     }
 }
